@@ -60,6 +60,7 @@ type scheduler struct {
 	explore      bool
 	hooksOnly    bool // schedule decisions only at hook points: an arriving goroutine passes or waits to be overtaken
 	hookWaiters  map[string][]*gor
+	exploreSelect bool // a select with several ready cases is a decision even when schedules are not explored
 	preemptBound int
 	preemptions  int
 	abort        interface{} // panic value to deliver to main
@@ -633,7 +634,7 @@ func (s *scheduler) selectOp(cases []selCase, blocking bool) (int, value, bool) 
 	}
 	if len(ready) > 0 {
 		k := 0
-		if s.explore && !s.hooksOnly && len(ready) > 1 {
+		if ((s.explore && !s.hooksOnly) || s.exploreSelect) && len(ready) > 1 {
 			k = CurPath.Choose("select", "", len(ready))
 		}
 		i := ready[k]
